@@ -20,7 +20,11 @@ open HdVerif HdVerif.Gen HdVerif.Vol HdVerif.VolLemmas
 /-! ## one operation on a geometry -/
 
 /-- **Retained voxels keep their physical coordinate** — for every accepted spatial operation and *every*
-integer index `j`: the output affine at `j` is the input affine at the index the array element comes from. -/
+integer index `j`: the output affine at `j` is the input affine at the index the array element comes from.
+The two sides are modelled separately: the affine from the library's own arithmetic (origin index, column factor, pad
+origin offset — regenerated from source, T10a / T9e; permutation of columns), the array index map from what numpy does
+(`slice.indices` start and stride, `pad` puts `before` elements in front, `transpose`); that they agree is proved
+(`getitem_axis_sound`, `pad_axis_sound`, `pos_permute`), not built in. -/
 theorem op_preserves_position (coord : Coord) (g : Geom) (op : SOp) (r : GStep) (hp : g.Pos)
     (h : op.applyGeom coord g = .ok r) (j : I3) : r.1.pos j = g.pos (r.2 j) :=
   (applyG_sound AxMap.size szOk_size hp h).1.position j
@@ -162,13 +166,22 @@ theorem volume_op_keeps_every_voxel (coord : Coord) (v : Vol) (op : SOp) (w : VS
 
 /-! ## indexing arithmetic (CPython `slice.indices` + translated T10a) -/
 
-/-- One indexed axis of size `n`: the stride is non-zero, at least one voxel is selected, numpy's slice length is
-the size the library computes, and every selected index `first + step·k` addresses an existing voxel. -/
+/-- One indexed axis of size `n`: the stride is non-zero, at least one voxel is selected, numpy's slice length is the
+size the library computes, **the origin index and column factor the library uses for the affine (`first`, `step`, T10a)
+are the start and stride numpy uses on the array (`afirst`, `astep`)**, and every index numpy reads,
+`afirst + astep·k`, addresses an existing voxel. -/
 theorem getitem_axis_sound (s : Option PySlice) (n : Int) (m : AxMap) (hn : 0 < n) (h : axisOfSlice s n = .ok m) :
-    m.step ≠ 0 ∧ 1 ≤ m.size ∧ m.alen = m.size ∧
-    ∀ k, 0 ≤ k → k < m.size → 0 ≤ m.first + m.step * k ∧ m.first + m.step * k < n :=
+    m.step ≠ 0 ∧ 1 ≤ m.size ∧ m.alen = m.size ∧ (m.afirst = m.first ∧ m.astep = m.step) ∧
+    ∀ k, 0 ≤ k → k < m.size → 0 ≤ m.afirst + m.astep * k ∧ m.afirst + m.astep * k < n :=
   let r := axisOfSlice_sound hn h
-  ⟨r.1.1, r.1.2.1, r.1.2.2, r.2⟩
+  ⟨r.1.1, r.1.2.1, r.1.2.2.1, r.1.2.2.2, r.2⟩
+
+/-- One padded axis: the origin offset and new size the library computes (`origin_offset = [-p[0] …]`,
+`d + p[0] + p[1]`, regenerated from source, T9e) agree with what `numpy.pad` does to the array (`before` new elements in
+front, `n + before + after` in total). -/
+theorem pad_axis_sound (n before after : Int) (m : AxMap) (h : padAxis n before after = .ok m) :
+    m.first = m.afirst ∧ m.afirst = -before ∧ m.step = 1 ∧ m.astep = 1 ∧ m.size = m.alen ∧ m.alen = n + before + after := by
+  rw [padAxis_ok h]; exact ⟨rfl, rfl, rfl, rfl, rfl, rfl⟩
 
 /-- The size / emptiness test of `_prepare_getitem_index` refuses exactly the selections numpy would return
 empty (any non-zero step, any `first`, `last`). -/
@@ -180,15 +193,15 @@ theorem getitem_refuses_iff_empty (first last step : Int) (hs : step ≠ 0) :
 includes index 0) on an axis of size `n`, `0 ≤ k < n`, `s ≥ 1`: accepted, first voxel `k`, stride `-s`, `⌊k/s⌋+1` voxels
 (`k, k-s, …` down to the last index `≥ 0`) — so index 0 is included exactly when `s` divides `k`. -/
 theorem getitem_reverse_to_zero (k s n : Int) (hk : 0 ≤ k ∧ k < n) (hs : 0 < s) :
-    axisOfItem (some (Item.slice (some k) none (some (-s)))) n = .ok ⟨k, -s, k / s + 1, k / s + 1⟩ ∧
-    axisOfItem (some (Item.slice (some k) (some (-n - 1)) (some (-s)))) n = .ok ⟨k, -s, k / s + 1, k / s + 1⟩ :=
+    axisOfItem (some (Item.slice (some k) none (some (-s)))) n = .ok ⟨k, -s, k / s + 1, k / s + 1, k, -s⟩ ∧
+    axisOfItem (some (Item.slice (some k) (some (-n - 1)) (some (-s)))) n = .ok ⟨k, -s, k / s + 1, k / s + 1, k, -s⟩ :=
   ⟨reverse_to_zero_axis hk hs, reverse_to_zero_axis_explicit hk hs⟩
 
 /-- An int index `k` with `-n ≤ k < n` on an axis of size `n` is accepted and selects exactly plane `k`
 (`k + n` for negative `k`), one voxel thick — `checkInt`, `intToSlice` (the `-1` special case), `slice.indices` and the
 size arithmetic composed. -/
 theorem getitem_int_selects (k n : Int) (hn : 0 < n) (hk : -n ≤ k ∧ k < n) :
-    axisOfItem (some (Item.int k)) n = .ok ⟨if k < 0 then k + n else k, 1, 1, 1⟩ :=
+    axisOfItem (some (Item.int k)) n = .ok ⟨if k < 0 then k + n else k, 1, 1, 1, if k < 0 then k + n else k, 1⟩ :=
   int_axis_map hn hk
 
 /-- An int index outside the axis is refused with IndexError — never wrapped, never clamped. -/
